@@ -33,7 +33,8 @@ def budget(tier):
 
 def profile():
     return rtwork.rt_profile(p_annotations=1.0, p_field_ann=0.55, max_omitted=3, p_custom_ann=0.0,
-                             p_parent=0.7, p_patch=0.4, p_alias=0.3, p_doc=0.05, n_types=(4, 10))
+                             p_parent=0.7, p_patch=0.4, p_alias=0.3, p_doc=0.05, n_types=(4, 10),
+                             p_prefer_redacted_alias=0.5)
 
 
 class Perms:
